@@ -113,6 +113,15 @@ func (c *chain) addKeyFirst(k stateKey) {
 	c.keys = append(c.keys, k)
 }
 
+// addKeyOnce: the first key of its kind, outside the cap.
+func (c *chain) addKeyOnce(k stateKey) {
+	if c.keyset["kind:"+k.Kind] {
+		return
+	}
+	c.keyset["kind:"+k.Kind] = true
+	c.keys = append(c.keys, k)
+}
+
 func (c *chain) addKey(k stateKey) {
 	id := k.Kind + k.Addr.String() + k.Slot.String()
 	if c.keyset[id] || len(c.keys) >= 12 {
@@ -220,6 +229,16 @@ func (c *chain) next(plain bool) (*lib.Bundle, error) {
 	for a := range diff.DeployedContracts {
 		c.addKey(stateKey{Kind: "class", Addr: a})
 	}
+	// class definitions and compiled class hashes through the same readers (at most one class of each kind)
+	for _, h := range diff.DeclaredV0Classes {
+		c.addKeyOnce(stateKey{Kind: "classdef", Addr: *h})
+	}
+	for h := range diff.DeclaredV1Classes {
+		c.addKeyOnce(stateKey{Kind: "classdef", Addr: h})
+		c.addKeyOnce(stateKey{Kind: "casm", Addr: h})
+		// (CompiledClassHashV2 is answered from the HEAD state by both history readers, by design: not a function of
+		// the block, so a node and a longer twin differ without any pruning — not compared)
+	}
 	b, err := g.Next(&lib.BlockSpec{Version: version, Diff: diff, Classes: classes})
 	if err == nil && c.evAddr == nil {
 		for _, rc := range b.Block.Receipts {
@@ -322,6 +341,7 @@ type world struct {
 	// above it sweeps them. 0 = nothing pending.
 	dirtyUpTo uint64
 	broken    bool // the scenario left the property's domain or the harness lost sync: stop comparing
+	held      []*heldR // historical readers opened earlier and kept (review.go)
 }
 
 func (w *world) legacy() bool { return !w.ch.newState }
@@ -402,13 +422,17 @@ func newWorld(res *lib.Result, ch *chain, drv, fdrv *lib.Driver, fixed bool, mig
 }
 
 func (w *world) cfgLine() string {
-	return fmt.Sprintf("cfg %d %d %s %s %s %s %s %s", w.pcfg.Retained, w.pcfg.L2PerPrune, b01(w.cutoff > 0), b01(w.legacy()),
-		b01(w.fixed), b01(w.mig.SkipsMissing), b01(w.mig.ZeroNoop), b01(l2Clamps.Load()))
+	return fmt.Sprintf("cfg %d %d %s %s %s %s %s %s %s", w.pcfg.Retained, w.pcfg.L2PerPrune, b01(w.cutoff > 0), b01(w.legacy()),
+		b01(w.fixed), b01(w.mig.SkipsMissing), b01(w.mig.ZeroNoop), b01(l2Clamps.Load()), b01(readerGuard.Load()))
 }
 
 // l2Clamps: the code under test ignores a new-head event for a block above the current head (detected, see
 // probeStaleEvent; proposed-fixes/C16-stale-new-head-event.diff).
 var l2Clamps atomic.Bool
+
+// readerGuard: the legacy historical reader of the code under test repeats its retention check after every
+// read (detected, see probeHeldReader; proposed-fixes/C16-legacy-reader-held-across-prune.diff).
+var readerGuard atomic.Bool
 
 // clock tells the model the block timestamps of the chain (when it has grown) and the pruner's cut-off
 // (now - minAge) at this moment. The model derives everything else itself: the seeded / ticked sample, the
@@ -473,8 +497,11 @@ func (w *world) startProc() {
 	var s0 uint64
 	if w.cutoff > 0 {
 		// min-age such that now-minAge falls on the scenario's cutoff; the chain's timestamps are years old
-		pc.MinAge = time.Since(time.Unix(int64(w.cutoff), 0))
-		w.minAgeDur = pc.MinAge
+		// (fixed for the life of the world: the cut-off only advances, also across restarts)
+		if w.minAgeDur == 0 {
+			w.minAgeDur = time.Since(time.Unix(int64(w.cutoff), 0))
+		}
+		pc.MinAge = w.minAgeDur
 		clockCases.Add(1)
 		w.procCutoff = w.cutoffNow()
 		s0 = w.sampleAt(w.procCutoff)
@@ -548,6 +575,9 @@ func (w *world) minAgeBlock() uint64 {
 	return uint64(w.height + 1)
 }
 
+// bumpSpecFloor is evaluated whenever the pruner (or the migration) is asked to act — when an event is delivered,
+// with the L1 head and the local head of THAT moment (a head that has been reverted since the event was
+// published does not count) — and is a running maximum: a floor reached under a higher head stays.
 // bumpSpecFloor: the property allows the floor to be as high as min(L1 head, local head) - retained,
 // capped by the oldest block younger than the min-age; it never has to come down again.
 func (w *world) bumpSpecFloor() {
@@ -610,7 +640,6 @@ func (w *world) store() bool {
 	}
 	w.height = n
 	w.res.Hit("op:store")
-	w.bumpSpecFloor()
 	return true
 }
 
@@ -662,7 +691,6 @@ func (w *world) writeL1(n uint64) {
 	}
 	w.l1 = int64(n)
 	w.res.Hit("op:writeL1")
-	w.bumpSpecFloor()
 }
 
 // restart: the process ends (after a cancelled context, a kill, or an orderly stop between prunes)
@@ -696,13 +724,14 @@ type prunePlan struct {
 	CancelAt int  // context cancelled right after this write (-1 = none)
 	ForkAll  bool // crash image after EVERY write, each continued in a fork
 	StoreAt  int  // store the next chain block on the node right after this write (-1 = none)
+	RevertAt int  // revert the head and store it again right after this write (-1 = none)
 	Observe  bool // full observation after every write (in-process reads during a prune)
 }
 
-func noPlan() prunePlan { return prunePlan{FailAt: -1, CancelAt: -1, StoreAt: -1} }
+func noPlan() prunePlan { return prunePlan{FailAt: -1, CancelAt: -1, StoreAt: -1, RevertAt: -1} }
 
 func (p prunePlan) String() string {
-	return fmt.Sprintf("fail=%d cancel=%d fork=%v store=%d observe=%v", p.FailAt, p.CancelAt, p.ForkAll, p.StoreAt, p.Observe)
+	return fmt.Sprintf("fail=%d cancel=%d fork=%v store=%d revert=%d observe=%v", p.FailAt, p.CancelAt, p.ForkAll, p.StoreAt, p.RevertAt, p.Observe)
 }
 
 type eventResult struct {
@@ -721,6 +750,8 @@ func (w *world) event(kind string, n, ts uint64, plan prunePlan) eventResult {
 	}
 	w.rec("event-"+kind, n, plan.String())
 	w.res.Hit("op:event-" + kind)
+	w.bumpSpecFloor()
+	stale := kind == "l2" && int64(n) > int64(w.height) && w.l1 >= 0 && uint64(w.l1) > n && n >= w.pcfg.Retained
 	var line string
 	var within0 bool
 	if kind == "l1" {
@@ -779,6 +810,13 @@ func (w *world) event(kind string, n, ts uint64, plan prunePlan) eventResult {
 			w.store()
 			w.res.Hit("interleave:store-between-batches")
 		}
+		if wi.Seq == plan.RevertAt && w.height > 0 && uint64(w.height) > w.fspec {
+			// a reorg while the pruner is busy: the head (above the floor) is reverted and stored again
+			if w.revert() {
+				w.res.Hit("interleave:revert-between-batches")
+				w.store()
+			}
+		}
 		if wi.Seq == plan.CancelAt {
 			res.Cancelled = true
 			w.proc.cancel()
@@ -812,7 +850,7 @@ func (w *world) event(kind string, n, ts uint64, plan prunePlan) eventResult {
 			impl = fmt.Sprintf("done %d %d", e.Count, e.Oldest)
 		} else {
 			impl = "err"
-			if !res.Failed {
+			if !res.Failed && !stale {
 				// an error nobody injected: the pruner could not do its work
 				w.violate("prune-error-"+w.situation, fmt.Sprintf("event %s: %s", line, e.Err))
 			}
@@ -820,6 +858,22 @@ func (w *world) event(kind string, n, ts uint64, plan prunePlan) eventResult {
 	}
 	if strings.HasPrefix(impl, "done") && w.fixed && inPrune && !res.Failed {
 		modelFinal = w.ask("finish")
+	}
+	if strings.HasPrefix(modelFinal, "started") && stale && impl == "err" {
+		// a new-head event for a block that is not on the chain (any more): the prune runs into the missing
+		// block — the model's next loop iteration fails on the same read
+		// (the rest of the range in one go: whatever the batch threshold, the loop stops at the first missing block)
+		rest := 1
+		if info, err := w.drv.Ask("info"); err == nil {
+			if f := strings.Fields(info); len(f) == 7 {
+				var js, je, jc, jf int
+				if _, err := fmt.Sscanf(f[5], "run:%d:%d:%d:%d", &js, &je, &jc, &jf); err == nil && je > jc {
+					rest = je - jc
+				}
+			}
+		}
+		modelFinal = w.ask(fmt.Sprintf("flush %d", rest)) // "err": the failing read ends the prune call
+		w.res.Hit("stale-event:prune-ran-into-missing-block")
 	}
 	if strings.HasPrefix(modelFinal, "started") {
 		// the model is still inside the prune but the implementation is not
@@ -910,7 +964,7 @@ func (w *world) hitEventBranch(kind string, n uint64, within bool) {
 // prune resumed by the same event, the head reverted and stored again.
 func (w *world) fork(kind string, n, ts uint64, seq int) {
 	f := &world{res: w.res, ch: w.ch, name: w.name, spec: w.spec, drv: w.fdrv, fixed: w.fixed, mig: w.mig, pcfg: w.pcfg,
-		height: w.height, l1: w.l1, fspec: w.fspec, cutoff: w.cutoff, isFork: true,
+		height: w.height, l1: w.l1, fspec: w.fspec, cutoff: w.cutoff, minAgeDur: w.minAgeDur, isFork: true,
 		situation: "after-crash-mid-prune", quiescent: true, dirtyUpTo: max(w.dirtyUpTo, w.fspec), lastLow: w.lastLow,
 		noState: w.noState, extra: w.extra}
 	f.ops = append(append([]opRec{}, w.ops...), opRec{Op: "crash-image", N: uint64(seq), Note: "kill -9 right after this batch write of the prune above; continue on the image"})
@@ -964,6 +1018,9 @@ var families = map[string]string{
 	"stateAtHash": "state-by-hash",
 }
 
+// blockHashLag = core.BlockHashLag: how far back get_block_hash may look.
+const blockHashLag = 10
+
 type obsItem struct {
 	model string // model query
 	real  string // Reader method
@@ -998,7 +1055,7 @@ func (w *world) observe() {
 		if w.height < 18 || n == 0 || n >= w.height-1 || w.extra[uint64(n)] {
 			return true
 		}
-		return uint64(n)+3 >= lowMark && uint64(n) <= highMark+2
+		return uint64(n)+blockHashLag+2 >= lowMark && uint64(n) <= highMark+2
 	}
 	for n := 0; n <= hi; n++ {
 		if !inWindow(n) {
@@ -1104,6 +1161,7 @@ func (w *world) observe() {
 	// --- persisted aggregated bloom windows: which exist on disk, model vs implementation vs property
 	w.bloomWindows()
 	w.floorsTie()
+	w.heldObs()
 
 	// --- property oracle on the real answers
 	w.oracle(items, headClass, headDet)
@@ -1152,6 +1210,15 @@ func (w *world) oracle(items []obsItem, headClass, headDet string) {
 			// never acceptable, at any height: a wrong answer instead of "pruned"
 			w.violate(fam+"-"+cw+"-"+sit, where)
 			continue
+		}
+		// (4) the BlockHashLag window: the headers of the 10 blocks below the durable floor survive (executing a
+		//     retained block may call get_block_hash(n-10)) — in every situation, also mid-prune and after a crash
+		if it.model == "headerByNumber" && haveOldest && it.n < oldest && it.n+blockHashLag >= oldest && it.class != "ok" {
+			w.violate("lag-window-header-"+cw+"-"+sit, where+fmt.Sprintf(" [oldest retained block %d: the header is inside the BlockHashLag window]", oldest))
+			continue
+		}
+		if it.model == "headerByNumber" && haveOldest && it.n < oldest && it.n+blockHashLag >= oldest {
+			w.res.Hit("lag-window:header-present")
 		}
 		// (2) at or above the highest floor the property allows: complete and equal to the twin;
 		//     historical state from one block below it
